@@ -152,6 +152,12 @@ Ev(e, v, vars, it, n) ==
     [] e.op = "first" -> Ev(e.b, v, vars, it, 1)
     [] e.op = "limit" -> (IF e.n <= 0 THEN EvR(<<>>, "none", it) ELSE Ev(e.b, v, vars, it, IF e.n < n THEN e.n ELSE n))
     [] e.op = "drain" -> (LET a == Ev(e.b, v, vars, it, Inf) IN EvR(<<>>, a.err, a.it))
+    [] e.op = "tostream" -> (LET q == ToStream(v) IN EvR(IF Len(q) > n THEN SubSeq(q, 1, n) ELSE q, "none", it))
+    [] e.op = "fromstream" ->                              \* emits every value completed before an error of its argument
+         (IF n # Inf THEN EvR(<<>>, "oom", it)
+          ELSE LET a == Ev(e.b, v, vars, it, Inf)
+                   f == FromStream(a.o)
+               IN IF ~f.ok THEN EvR(<<>>, "oom", a.it) ELSE EvR(f.vs, a.err, a.it))
 
 \* ---------------------------------------------------------------------------
 \* cli.go process: the main loop.  Run state: [it, ndone, out, nerr, oom]
